@@ -46,7 +46,8 @@ PROPS.update({
     "C09": {
         "prop_file": "Properties/C09.v",
         "coq_targets": ["Properties/C09.vo", "Cases/GenesisRun.vo", "Cases/LedgerRun.vo", "Ledger/Tie.vo"],
-        "families": [dict(LEDGER, emit="genesis"), {"module": H, "cmd": "genesisprobe", "emit": "genesis"}],
+        "families": [dict(LEDGER, emit="genesis"), {"module": H, "cmd": "genesisprobe", "emit": "genesis"}, {"module": H, "cmd": "idstrings"}],
+        "also_monitors": ["C14"],
         "trusted_base": LEDGER_TB + ["Genesis/Validators.v is a hand transcription of every state Validate() and of ValidateGenesis' cross-table checks (its verdict is compared with the real ValidateGenesis on every exported state)",
                                      "the ORM JSON export/import codec is modelled as the identity on rows; the real round trip is executed by the harness (genesis_rt items)"],
         "assumptions": LEDGER_AS + ["stored coefficients below 10^100000 (small_state)"],
